@@ -389,6 +389,7 @@ CORPUS = [
     ("k-unclean", ["fs mkdir d", "api add ./d", "api remove d"]),
     ("k-fifo-add", ["fs mkfifo p", "api add p", "api remove p"]),
     ("k-link-target-watched", ["fs create f", "fs symlink f l", "api add f", "api add l", "api remove l", "api remove f"]),
+    ("k-unclean-link-close", ["fs create x", "fs symlink /T//x l", "api add l", "api close"]),
     ("k-link-remove", ["fs create f", "fs symlink f l", "api add l", "api remove l"]),
     ("k-link-target-deleted", ["fs create f", "fs symlink f l", "api add l", "fs unlink f"]),
     ("k-dir-rename", ["fs mkdir d", "fs create d/a", "api add d", "fs rename d e", "fs write e/a"]),
@@ -634,6 +635,8 @@ def spec_key(clause, detail, steps):
     cause is never taken for a listed one."""
     fs_ = features(steps)
     if clause == "close-releases-all":
+        if "vnode" in detail and "symlink-added" in fs_:
+            return "symlink-added"      # the watch is filed under the raw (unclean) link target, which Close does not find
         return "close-leaks-descriptors" if "vnode" in detail else "close-leaks-kqueue-or-pipe"
     cause = next((c for c in CAUSES if c in fs_), None)
     if clause == "remove-of-unadded-succeeds":
@@ -693,16 +696,27 @@ def triage_spec(ctx, hists, res, prop, max_per_group=3, max_total=60):
         if not any(x["hist"] == m["hist"] for x in groups[g]):
             groups[g].append(m)
     found, total = {}, 0
+    # the stored witnesses of the listed findings first (not counted against the budget), then
     # smallest prefixes first: they minimise fastest and are the most specific
+    todo, seen_c = [], set()
+    for m in res["spec"]:
+        if m["prop"] == prop and m["hist"].startswith(("k-", "kq-")) and (m["hist"], m["clause"]) not in seen_c:
+            seen_c.add((m["hist"], m["clause"]))
+            todo.append((m, True))
     for g in sorted(order, key=lambda g: (len(g[1]), g)):
         for m in sorted(groups[g], key=lambda m: m["step"])[:max_per_group]:
-            if total >= max_total:
-                break
+            if not m["hist"].startswith(("k-", "kq-")):
+                todo.append((m, False))
+    if True:
+        for m, free in todo:
+            if not free:
+                if total >= max_total:
+                    break
+                total += 1
             clause = m["clause"]
             steps = by_hist[m["hist"]][:m["step"]]
             pred = lambda x, c=clause: any(s["clause"] == c for s in x["spec"])
             mini = ctx.minimise(steps, pred)
-            total += 1
             lines, r = annotate(ctx, mini)
             hit = next((s for s in r.get("spec", []) if s["clause"] == clause), None)
             if hit is None:
@@ -861,7 +875,7 @@ def run_check(run, pid):
     by_hist = {h[0]: h[2] for h in hists}
 
     # ---- (1) specification on the implementation's observations
-    found = triage_spec(ctx, hists, res, pid, max_per_group=1 if quick else 3, max_total=45 if quick else 400)
+    found = triage_spec(ctx, hists, res, pid, max_per_group=1 if quick else 3, max_total=35 if quick else 400)
     for key, v in sorted(found.items()):
         run.violation(key, WHAT.get(key, "clause %s of %s fails on the implementation: %s" % (v["clause"], pid, v["detail"])),
                       {"kind": "spec", "clause": v["clause"], "detail": v["detail"], "minimal_history": v["steps"], "observations": v["lines"],
